@@ -403,3 +403,39 @@ Proof.
     + apply StronglySorted_inv in Hdesc as [_ Hall]. rewrite Forall_forall in Hall. now apply Hall.
     + apply StronglySorted_inv in Hdesc as [Hs _]. auto.
 Qed.
+
+(* a checkpoint is only discarded when a strictly newer one stays behind (keepNum >= 1) *)
+Lemma NoDup_nth_error_inj {A} (l : list A) i j x :
+  NoDup l -> nth_error l i = Some x -> nth_error l j = Some x -> i = j.
+Proof.
+  intros Hnd Hi Hj. apply (proj1 (NoDup_nth_error l) Hnd); [apply nth_error_Some; congruence|congruence].
+Qed.
+
+Theorem purge_newer_stays keep names latest v :
+  NoDup names -> (1 <= keep)%nat -> In v (purge_removed keep names latest) ->
+  exists w, In w (glob_dash names) /\ ~ In w (purge_removed keep names latest) /\ key_le v w /\ w <> v.
+Proof.
+  intros Hnd Hk Hv.
+  destruct (purge_removed_spec _ _ _ _ Hv) as [s [i [look [ES [Hi [Hlk _]]]]]].
+  assert (Hlen : (keep + i < length s)%nat) by (apply nth_error_Some; congruence).
+  destruct (nth_error s (length s - 1)) as [w|] eqn:Hw; [|apply nth_error_None in Hw; lia].
+  pose proof (go_sort_perm _ _ ES) as Hp. pose proof (go_sort_asc _ _ ES) as Ha.
+  assert (Hnds : NoDup s).
+  { eapply Permutation_NoDup; [apply Permutation_sym; exact Hp|]. now apply NoDup_filter. }
+  exists w. split; [eapply Permutation_in; [exact Hp|]; eapply nth_error_In; eauto|]. split; [|split].
+  - eapply purge_newest_stay; eauto.
+    assert (E : nth_error (skipn (length s - keep) s) (keep - 1) = Some w).
+    { rewrite nth_error_skipn_add. replace (length s - keep + (keep - 1))%nat with (length s - 1)%nat by lia. exact Hw. }
+    eapply nth_error_In; eauto.
+  - eapply (asc_nth s Ha i (length s - 1)); eauto. lia.
+  - intros ->. assert (i = (length s - 1)%nat) by (eapply NoDup_nth_error_inj; eauto). lia.
+Qed.
+
+(* without index_monotone the index clause fails: term 1 snapshot at index 100, term 2 snapshot at index 5 *)
+Theorem purge_unsafe_without_monotone :
+  exists keep names latest v, NoDup names /\ In v (purge_removed keep names latest) /\ latest <= index_of_name v.
+Proof.
+  exists 1%nat, [enc_name 1 100; enc_name 2 5], 50, (enc_name 1 100).
+  split; [repeat constructor; cbn; intuition discriminate|].
+  vm_compute. split; [now left|discriminate].
+Qed.
